@@ -161,6 +161,8 @@ struct State {
     late_responses: bool,
     /// every read's response (also a failure's) is delivered as a separate schedulable event
     late_all_reads: bool,
+    /// how many commits of other nodes overtake the victim between its read and its write (0 = 1)
+    victim_overtakes: u32,
     /// free-running fault plan: (global ordinal among *counted* requests, decision)
     fault_plan: BTreeMap<u64, Decision>,
     /// ordinal counter for the fault plan (counts only requests matching `fault_filter_node`)
@@ -210,6 +212,11 @@ impl SimCore {
     /// caller later (other requests can take effect in between).
     pub fn set_late_all_reads(&self, on: bool) {
         self.st.lock().late_all_reads = on;
+    }
+    /// The victim of `drive_schedule` is held back until this many writes of other nodes have taken
+    /// effect since its last read (default 1).
+    pub fn set_victim_overtakes(&self, k: u32) {
+        self.st.lock().victim_overtakes = k;
     }
 
     pub fn set_scheduled(&self, on: bool) {
@@ -980,7 +987,8 @@ pub async fn drive_schedule(
                 return Choice::Wait(std::time::Duration::from_millis(400));
             }
             let vput = pend.iter().any(|p| p.desc.node == vnode && p.desc.op == OpKind::Put);
-            if vput && foreign_commits_since_victim_get == 0 {
+            let need = (core.st.lock().victim_overtakes as usize).max(1);
+            if vput && foreign_commits_since_victim_get < need {
                 let others: Vec<&PendingInfo> = pend.iter().filter(|p| p.desc.node != vnode).collect();
                 if !others.is_empty() {
                     cands = others;
